@@ -25,7 +25,7 @@ PROFILES = {
     "sync": dict(
         send=[("send", 6), ("try_send", 3), ("close", 1), ("drop", 1), ("obs", 1)],
         recv=[("recv", 6), ("try_recv", 3), ("drain_into", 1), ("close", 1), ("drop", 1), ("obs", 1)],
-        caps=[0, 1, 1, 2, None], nprocs=[2, 3, 3], nops=[1, 2, 3], payloads=["w1", "b3"]),
+        caps=[0, 1, 1, 2, None], nprocs=[2, 3, 3], nops=[1, 2, 3], payloads=["w1", "b3", "u8", "z0"]),
     "timed": dict(
         send=[("send_timeout", 5), ("send_option_timeout", 5), ("send", 2), ("try_send", 1), ("close", 1), ("drop", 1)],
         recv=[("recv_timeout", 6), ("recv", 2), ("try_recv", 1), ("drain_into", 1), ("close", 1), ("drop", 1)],
@@ -33,7 +33,7 @@ PROFILES = {
     "async": dict(
         send=[("asend", 8), ("send", 2), ("try_send", 2), ("close", 1), ("drop", 1)],
         recv=[("arecv", 8), ("stream", 4), ("recv", 2), ("try_recv", 2), ("close", 1), ("drop", 1)],
-        caps=[0, 0, 1, 2], nprocs=[2, 3], nops=[1, 2, 3], payloads=["w1", "b3", "h4", "p5"]),
+        caps=[0, 0, 1, 2], nprocs=[2, 3], nops=[1, 2, 3], payloads=["w1", "b3", "h4", "p5", "u8", "z0"]),
     "handles": dict(
         send=[("clone", 4), ("drop", 4), ("conv", 3), ("obs", 5), ("close", 1), ("send", 1), ("try_send", 1)],
         recv=[("clone", 4), ("drop", 4), ("conv", 3), ("obs", 5), ("close", 1), ("recv", 1), ("try_recv", 1)],
@@ -55,13 +55,13 @@ PROFILES = {
     "close": dict(
         send=[("send", 4), ("try_send", 2), ("send_timeout", 2), ("send_option_timeout", 1), ("asend", 3), ("close", 3), ("obs", 2), ("clone", 1)],
         recv=[("recv", 4), ("try_recv", 2), ("recv_timeout", 2), ("drain_into", 1), ("arecv", 3), ("stream", 1), ("close", 3), ("obs", 2), ("is_terminated", 1), ("clone", 1)],
-        caps=[0, 0, 1, 2, None], nprocs=[2, 3, 3, 4], nops=[2, 3, 4], payloads=["w1", "b3", "h4"], late=0.3),
+        caps=[0, 0, 1, 2, None], nprocs=[2, 3, 3, 4], nops=[2, 3, 4], payloads=["w1", "b3", "h4", "u8", "z0"], late=0.3),
     "disconnect": dict(
         send=[("send", 4), ("try_send", 2), ("try_send_realtime", 1), ("try_send_option", 1), ("send_timeout", 1), ("send_option_timeout", 1),
               ("asend", 3), ("drop", 3), ("clone", 2), ("obs", 1)],
         recv=[("recv", 4), ("try_recv", 2), ("try_recv_realtime", 2), ("recv_timeout", 2), ("drain_into", 2), ("iter_next", 1), ("arecv", 3),
               ("stream", 1), ("drop", 3), ("clone", 2), ("obs", 1), ("is_terminated", 1)],
-        caps=[0, 0, 1, 2, None], nprocs=[2, 3, 3, 4], nops=[2, 3, 4], payloads=["w1", "b3"], late=0.3),
+        caps=[0, 0, 1, 2, None], nprocs=[2, 3, 3, 4], nops=[2, 3, 4], payloads=["w1", "b3", "u8", "z0"], late=0.3),
     "l2": dict(
         send=[("send", 6), ("try_send", 3), ("send_timeout", 2), ("send_option_timeout", 2), ("try_send_option", 1),
               ("try_send_realtime", 1), ("asend", 4), ("close", 1), ("drop", 1), ("clone", 1), ("obs", 1), ("conv", 1)],
@@ -73,7 +73,7 @@ PROFILES = {
         send=[("send", 5), ("try_send", 2), ("send_timeout", 1), ("asend", 5), ("close", 1), ("drop", 1), ("clone", 2), ("conv", 3), ("obs", 1)],
         recv=[("recv", 5), ("try_recv", 2), ("recv_timeout", 1), ("drain_into", 1), ("arecv", 5), ("stream", 2), ("close", 1), ("drop", 1),
               ("clone", 2), ("conv", 3), ("obs", 1)],
-        caps=[0, 0, 1, 2, None], nprocs=[2, 3, 3, 4], nops=[2, 3, 4], payloads=["w1", "b3", "h4", "p5"], late=0.2),
+        caps=[0, 0, 1, 2, None], nprocs=[2, 3, 3, 4], nops=[2, 3, 4], payloads=["w1", "b3", "h4", "p5", "u8", "z0"], late=0.2),
     "fdrop": dict(
         send=[("asend_d", 8), ("send", 2), ("try_send", 2), ("close", 1), ("drop", 1)],
         recv=[("arecv_d", 8), ("stream_d", 3), ("recv", 2), ("try_recv", 2), ("drain_into", 1), ("close", 1), ("drop", 1)],
@@ -280,7 +280,7 @@ def gen_chain(rng, payload=None, cap="rand", side=None):
     cancelled from the middle of the waiting list (timed expiry once the clock starts ticking, dropped futures),
     then the other side arrives and serves the rest."""
     capv = rng.choice([0, 0, 1, 1, 2]) if cap == "rand" else cap
-    pl = payload or rng.choice(["w1", "b3", "h4", "p5", "u16"])
+    pl = payload or rng.choice(["w1", "w1", "b3", "h4", "p5", "u16", "u8", "z0"])
     k = rng.choice([2, 3, 3, 4])
     side = side or rng.choice(["s", "s", "s", "r"])
     procs = []
